@@ -384,6 +384,14 @@ RULES = {
     # R34: the fn items `ToString::to_string` / `str::trim` as closure values on `Option<&str>` -> a closure with the contract of the function / the shim method `vmap_trim()` (a closure over the `&'a str` pieces of a Split fails Option::map's precondition in this Verus)
     "R34": [(".map(ToString::to_string)", ".vmap_to_string()"),
             (".map(str::trim)", ".vmap_trim()")],
+    # R35: `writeln!` on the error channel's sinks (util.rs) -> shims with permissions and token facts
+    "R35": [('writeln!(std::io::stderr(), "{s}")', "vwriteln_stderr(s)"), ('writeln!(std::io::stdout(), "{s}")', "vwriteln_stdout(s)"),
+            ('writeln!(std::io::stderr(), "Can\'t open error output file, caused by: {e}")', "vwriteln_stderr_note()"),
+            ('writeln!(file, "{s}")', "vwriteln_file(&mut file, s)")],
+    # R36: `err: &dyn std::error::Error` (eprint_err's type-erased argument, only formatted) -> the opaque shim `&VDynError`;
+    # R37: the one call inside util.rs that passes `&e` (a PoisonError) -> `vdyn(&e)`
+    "R36": [("&dyn std::error::Error", "&VDynError")],
+    "R37": [('"Error channel cannot be set", &e)', '"Error channel cannot be set", vdyn(&e))')],
     # R28 (computed): byte-offset string operations -> shims over the UTF-8 model of the unit (`byte_len` = sum of the characters' widths):
     # `s.find(c)` -> `s.vfind(c)`, `&s[..end]` -> `s.vslice_to(end)` (precondition: `end` is a character boundary), `&cow[..]` -> `vfull(&cow)`
     "R28": [],
